@@ -27,6 +27,7 @@ const (
 	FCrash      = "crash"      // process dies before this call
 	FIterErr    = "iter-err"   // KV iterator reports error at Close / enumerate errors after j
 	FShortWrite = "short-write"
+	FShortStore = "short-store" // receive keeps a copy one byte short and reports that size (a misbehaving replica)
 )
 
 // Fault addresses one lower-layer call.
